@@ -46,6 +46,9 @@ func __ghostset(name string, f func() int)               {}
 func __lastsent[T any](ch chan T) (r T)                  { return }
 func __sentcount[T any](ch chan T) int                   { return 0 }
 func __assert(label string, f func() bool)               {}
+func __progress(label string, f func() bool)             {}
+func __assumedensures(label string, f func() bool)       {}
+func __iterstart[T any](x T) T                           { return x }
 func __mapcontent(m any) any                             { return m }
 func __dynpreserves(locs ...any)                         {}
 func __forallkeys[K comparable, V any](m map[K]V, f func(K) bool) bool { return true }
@@ -331,6 +334,11 @@ func buildOverlay(pkgDir string) (*OverlayResult, error) {
 					fmt.Fprintf(&sb, " __ensures(%s, func() bool { return %s });", quoteLabel(r.Label), specToGo(txt, resultName))
 				}
 			}
+			for _, r := range c.AssumedEns {
+				if txt, ok := substAll(r.Text, fd, lastErr, res0); ok {
+					fmt.Fprintf(&sb, " __assumedensures(%s, func() bool { return %s });", quoteLabel(r.Label), specToGo(txt, resultName))
+				}
+			}
 			for _, g := range c.GhostSets {
 				if k := strings.Index(g, "="); k > 0 {
 					name := strings.TrimSpace(g[:k])
@@ -441,6 +449,9 @@ func buildOverlay(pkgDir string) (*OverlayResult, error) {
 				var lb strings.Builder
 				for _, r := range lc.Invariants {
 					fmt.Fprintf(&lb, " __invariant(%s, func() bool { return %s });", quoteLabel(r.Label), specToGo(r.Text, resultName))
+				}
+				for _, r := range lc.Progress {
+					fmt.Fprintf(&lb, " __progress(%s, func() bool { return %s });", quoteLabel(r.Label), specToGo(r.Text, resultName))
 				}
 				if len(lc.Decreases) > 0 {
 					var ds []string
